@@ -97,6 +97,19 @@ Section Gen.
   Proof. rewrite !gen_observe_is_model. apply history_independence; assumption. Qed.
 End Gen.
 
+(** set-up: the model's [fresh] (every cell of every work buffer zero) and the meaning of [SFwd]/[SInv]
+    (length-[nmax] transforms from [bp] to [ff] and from [wl] to [wp]) are what the constructor,
+    _initWakeLossFFT and fft_alloc_* say: each allocation zeroes all its cells, the four buffers have [nmax]
+    cells, the plans are made for these buffers *)
+Theorem gen_setup_is_model N :
+  gen_alloc_real_zeroed N = N /\ gen_alloc_complex_zeroed N = 2 * N /\
+  gen_buffers N = [(Bbp, false, N); (Bff, true, N); (Bwl, true, N); (Bwp, false, N)] /\
+  gen_plan_fwd N = (N, Bbp, Bff) /\ gen_plan_inv N = (N, Bwl, Bwp).
+Proof.
+  unfold gen_alloc_real_zeroed, gen_alloc_complex_zeroed, gen_buffers, gen_plan_fwd, gen_plan_inv.
+  repeat split; try ring; repeat (f_equal; try ring).
+Qed.
+
 (** every [env] has a cell kernel that satisfies the hypothesis (non-vacuity), e.g. the one that
     ignores the axis index *)
 Definition kcsr_of {T C} (E : env T C) : T -> Z -> Z -> C -> T := fun cut _ zi x => csrcell E cut zi x.
